@@ -140,7 +140,7 @@ def run_shard(binpath, unit, tiercfg, pid, uname, k, seed, statsdir, tier, repla
     args = [binpath, "-test.timeout", "%ds" % (timeout + 120)]
     if unit.get("engine") == "fuzz" and not replay:
         args += ["-test.run", "^$", "-test.fuzz", "^" + unit["fuzz"] + "$", "-test.fuzztime", "%ds" % tiercfg.get("fuzztime", 60),
-                 "-test.fuzzcachedir", os.path.join(rundir, "fuzzcache"), "-test.parallel", str(tiercfg.get("workers", NCPU))]
+                 "-test.fuzzcachedir", os.path.join(rundir, "fuzzcache"), "-test.parallel", str(tiercfg.get("workers", min(NCPU, 8)))]
     else:
         args += ["-test.run", unit["run"], "-test.count", "1"]
         if unit.get("engine", "rapid") == "rapid":
@@ -164,7 +164,8 @@ def run_shard(binpath, unit, tiercfg, pid, uname, k, seed, statsdir, tier, repla
         env[kk] = str(vv)
     if "gomaxprocs" in tiercfg:
         env["GOMAXPROCS"] = str(tiercfg["gomaxprocs"])
-    memkb = tiercfg.get("mem_mb", 6000) * 1024
+    # Go's fuzz coordinator maps a 100 MB buffer per worker on top of the binary's own needs
+    memkb = tiercfg.get("mem_mb", 24000 if unit.get("engine") == "fuzz" else 6000) * 1024
     race = unit.get("race")
 
     def pre():
